@@ -109,14 +109,14 @@ theorem takeWhile_run {p : Char → Bool} {l r : List Char} (hl : ∀ a ∈ l, p
   rw [List.takeWhile_append_of_pos hl]
   cases r with
   | nil => simp
-  | cons c r => simp [Stops] at hr; simp [List.takeWhile_cons, hr]
+  | cons c r => simp [Stops] at hr; simp [hr]
 
 theorem dropWhile_run {p : Char → Bool} {l r : List Char} (hl : ∀ a ∈ l, p a = true) (hr : Stops p r) :
     (l ++ r).dropWhile p = r := by
   rw [List.dropWhile_append_of_pos hl]
   cases r with
   | nil => simp
-  | cons c r => simp [Stops] at hr; simp [List.dropWhile_cons, hr]
+  | cons c r => simp [Stops] at hr; simp [hr]
 
 theorem spaces_ok (n : Nat) : ∀ a ∈ ' ' :: spaces n, isSpace a = true := by
   intro a ha
@@ -244,7 +244,7 @@ theorem sizeTok_print (z : Size) (h : z.WF) (W : List Char) (hW : Stops isWord W
     cases hu : z.unit with
     | nil => exact absurd hu h.unit_ne
     | cons _ _ => rfl
-  simp [hd, List.takeWhile_cons, hdd, wordThen, hne, hdr, hun]
+  simp [hd, hdd, wordThen, hne, hdr, hun]
 
 /-! ## Part B — one match attempt on a printed record -/
 
@@ -470,11 +470,11 @@ theorem onBody_alt (r : Rec) (_h : r.WF) (hz : r.size.isZero = true) (R : List C
             unfold dateAfterWs
             have e3 : isSpace ' ' = true := by decide
             have e4 : isSpace 'B' = false := by decide
-            simp [List.takeWhile_cons, List.dropWhile_cons, e3, e4]
+            simp [e3, e4]
             exact dateAt_nondigit _ (by decide)
           | succ n =>
             rw [hp] at hx
-            simp [spaces, List.replicate_succ, wordThen, List.takeWhile_cons, isWord_sp] at hx
+            simp [spaces, List.replicate_succ, wordThen, isWord_sp] at hx
         · cases hx
       · cases hx
 
@@ -542,7 +542,7 @@ theorem matchAt_nondigit (body : List Char → Option (List Char)) (s : List Cha
   | nil => simp
   | cons c s =>
     have : isDigit c = false := h c (by simp)
-    simp [List.takeWhile_cons, this]
+    simp [this]
 
 /-! ## Part B — scanning a listing line by line -/
 
